@@ -150,8 +150,9 @@ def entry_table() -> List[Entry]:
 class EntryRuns:
     """every entry analysed twice in sequence on the same objects (second call = history)"""
 
-    def __init__(self, ctx):
+    def __init__(self, ctx, watch=()):
         I = self.I = ctx.interp()
+        I.watch_calls |= set(watch)
         self.st = I.new_state()
         self.shared = {"cfg": I.cfg_root()}
         self.runs: Dict[str, list] = {}
